@@ -32,6 +32,14 @@ impl SwiftField for Field23 {
     where
         Self: Sized,
     {
+        // The formats below are cut out by byte offsets: only ASCII can be sliced safely, and
+        // no SWIFT character set contains anything else
+        if !input.is_ascii() {
+            return Err(ParseError::InvalidFormat {
+                message: "Field 23 must contain only ASCII characters".to_string(),
+            });
+        }
+
         if input.len() < 4 {
             // Minimum: 3 char function code + 1 char reference
             return Err(ParseError::InvalidFormat {
@@ -203,6 +211,14 @@ impl SwiftField for Field23E {
     where
         Self: Sized,
     {
+        // The formats below are cut out by byte offsets: only ASCII can be sliced safely, and
+        // no SWIFT character set contains anything else
+        if !input.is_ascii() {
+            return Err(ParseError::InvalidFormat {
+                message: "Field 23E must contain only ASCII characters".to_string(),
+            });
+        }
+
         if input.len() < 4 {
             return Err(ParseError::InvalidFormat {
                 message: format!(
